@@ -161,3 +161,31 @@ def callers_outside(ctx: Ctx, target: FuncInfo, allowed: set[str]) -> list:
         if cs.caller.qualname not in allowed:
             out.append(cs)
     return out
+
+
+NO_EVAL_MODULES = (
+    "pyhms.sprout", "pyhms.stop_conditions", "pyhms.config", "pyhms.initializers", "pyhms.logging_",
+    "pyhms.utils.clusterization", "pyhms.utils.print_tree", "pyhms.utils.r5s", "pyhms.utils.cache", "pyhms.utils.distances",
+    "pyhms.utils.covariance_estimate", "pyhms.utils.parameter_initializer", "pyhms.utils.deme_performance",
+)
+
+
+def who_may_evaluate(ctx: Ctx, rule: str):
+    """Sprouting machinery, stop conditions, reporting and helper modules never invoke the objective (transitively):
+    all evaluations of a run happen in deme constructors / run_metaepoch, through the deme's counting wrapper."""
+    from ..core import OK, VIOLATION
+
+    obs = []
+    n = 0
+    for f in ctx.prog.all_functions():
+        if not f.module.name.startswith(NO_EVAL_MODULES):
+            continue
+        n += 1
+        if ctx.eff.has(f, "EVAL"):
+            e = next(x for x in ctx.eff.of(f) if x[0] == "EVAL")
+            obs.append(ctx.ob(rule, f, f.node, status=VIOLATION, detail=f"{f.short} (sprouting / stop-condition / reporting code) invokes the objective: " + " ; ".join(ctx.eff.chain(f, e)[:4]) + " — such evaluations happen outside the metaepoch protocol (after the stop condition, uncounted by the deme that owns them, or while merely looking at the tree)", construct=f.short))
+    if n < 100:
+        raise AnalysisError(f"only {n} functions in the no-evaluation modules")
+    if not obs:
+        obs.append(ctx.ob(rule, None, None, subject="pyhms", loc="-", detail=f"{n} functions of the sprouting / stop-condition / reporting / helper modules: none reaches the objective", construct="no-eval-modules"))
+    return obs
